@@ -964,6 +964,54 @@ func runC14(c *Ctx) {
 	if waitSel == nil {
 		o.Undecide("no blocking select on a timer channel in the filter loop")
 	}
+	// arrival branch: unless the queue head is gone (already forwarded by the tick branch), every path back to the
+	// wait re-arms the timer for the head - also when the head is already overdue
+	headGone := func(from, to *ssa.BasicBlock) bool {
+		iff, ok := from.Instrs[len(from.Instrs)-1].(*ssa.If)
+		if !ok || from.Succs[0] == from.Succs[1] {
+			return false
+		}
+		val := from.Succs[0] == to
+		ft := fact{Cond: iff.Cond, Val: val, If: iff}
+		isPeek := func(v ssa.Value) bool {
+			cl, ok := origin(v).(*ssa.Call)
+			return ok && isQueueCall(cl, "peek")
+		}
+		// failed comma-ok assertion of the peeked head
+		if boolFact(ft, func(v ssa.Value) bool {
+			ex, ok := v.(*ssa.Extract)
+			if !ok || ex.Index != 1 {
+				return false
+			}
+			ta, ok := origin(ex.Tuple).(*ssa.TypeAssert)
+			return ok && isPeek(ta.X)
+		}, false) {
+			return true
+		}
+		return nilFact(ft, isPeek, true)
+	}
+	for _, cm := range commsOfU(run) {
+		if cm.Sel != waitSel || cm.Sel == nil || cm.Dir != types.RecvOnly || !strings.HasPrefix(chanRole(cm.Chan), "field "+T+".") {
+			continue
+		}
+		cs, _ := caseBlocks(cm.Sel)
+		blk := cs[cm.Index]
+		if blk == nil {
+			blk = lastCaseBlock(cm.Sel)
+		}
+		if blk == nil {
+			continue
+		}
+		o.Site(cm.Sel.Pos(), "arrival branch at block %d", blk.Index)
+		re := reachEdges(blockStart(blk), func(in ssa.Instruction) bool { return isReset(in) || loopEnd(in) }, func(from, to *ssa.BasicBlock) bool {
+			return headGone(from, to) || infeasible(from, to)
+		})
+		for in := range re {
+			if loopEnd(in) && !isReturn(in) {
+				o.Fail(in.Pos(), "after an arrival the loop can wait again without re-arming the timer for the queue head (e.g. when the head is already overdue): the chunk waits for the idle timeout")
+			}
+		}
+	}
 	for _, stp := range findU(run, func(in ssa.Instruction) bool { return isCall(in, "(*time.Timer).Stop") }) {
 		o.Site(stp.Pos(), "timer.Stop()")
 		re := reachEdges(posAfter(stp), func(in ssa.Instruction) bool { return isReset(in) || loopEnd(in) }, infeasible)
